@@ -428,3 +428,26 @@ impl DagGen {
         }
     }
 }
+
+/// `g=<ranks>/<sigbits>`: for each stored change the rank of its oid among the oids of the case (the keys of
+/// the model's evaluator, ordered like the `Oid`s) and `Entry::valid_signatures()` as computed by the real code.
+pub fn graph_token(repo: &Repository, ids: &[Oid]) -> String {
+    use radicle::cob::change::Storage as _;
+    let mut sorted: Vec<Oid> = ids.to_vec();
+    sorted.sort();
+    let ranks: Vec<String> = ids.iter().map(|i| sorted.iter().position(|s| s == i).unwrap().to_string()).collect();
+    let bits: String = ids
+        .iter()
+        .map(|i| match repo.load(*i) {
+            Ok(e) => {
+                if e.valid_signatures() {
+                    '1'
+                } else {
+                    '0'
+                }
+            }
+            Err(_) => '0',
+        })
+        .collect();
+    format!("g={}/{}", ranks.join(","), bits)
+}
